@@ -17,10 +17,12 @@ RULE = ("histories over one 2-column table with 0-3 stored rows (plain or gzip):
         "the oracle. Non-trivial = history contains a length-changing assignment or a commit after an "
         "edit; distinct = canonical JSON.")
 EXHAUSTIVE = {"quick": True, "thorough": True}
-EXPLANATION = ("Theorems: representation invariant and list refinement for open, len, indexing, "
-               "append/extend, clear, commit (incl. the append-only path and compressed files), reload, "
-               "for every reachable table state. Slice reads and slice/int assignment, update and "
-               "process are covered by the model + correspondence (and oracle), not yet by a theorem.")
+EXPLANATION = ("Theorems: representation invariant and list refinement for open, len, indexing, slice reads "
+               "with any step, append/extend, item and slice assignment (growing, shrinking, extended; "
+               "ValueError leaves the list unchanged), update, clear, commit (incl. the append-only path and "
+               "compressed files), reload, re-opening, and their composition over every history "
+               "(C10_history: induction over the operation list). TestSuite.process is covered by the "
+               "oracle, not by a theorem.")
 ASSUMPTIONS = [
     "rows are compared by Row.data (formatted column strings); the round trip data -> cast -> format "
     "-> line -> split -> format is the identity on the generator's value space (non-coded columns)",
@@ -32,11 +34,14 @@ LEVEL_TEXT = ("Proof (Coq, no axioms) that a table refines the plain list `list(
               "open/sync and preserved by extend, clear, commit, reload; len and indexing (positive and "
               "negative) equal list semantics; commit makes the stored relation equal to the list in both "
               "the append-only and the rewrite path, never appends onto compressed data, is idempotent and "
-              "ends the transaction; reload returns to the stored relation. Slice reads, assignments "
-              "(incl. the repaired length-changing ones), update and batch processing are modelled and "
-              "checked by kernel-evaluated correspondence over exhaustive short and random long histories.")
-LEVEL_NOTE = ("Partial: no theorem yet for slice reads / __setitem__ / update / process (correspondence and "
-              "oracle only). Four genuine defects were repaired by fix: commits (F3, F4, F5, F19) and the "
+              "ends the transaction; reload returns to the stored relation. Slice reads with any step equal "
+              "list slicing; item and slice assignment (incl. the repaired length-changing ones, which load "
+              "the rows that may shift) and update equal list assignment, a rejected assignment leaves the "
+              "list unchanged; C10_history composes these over every operation sequence from any stored "
+              "relation, plain or compressed. The model is tied to delphin by kernel-evaluated "
+              "correspondence over exhaustive short and random long histories on real directories; batch "
+              "processing is checked by the oracle.")
+LEVEL_NOTE = ("Partial only in that TestSuite.process/FieldMapper is oracle-checked, not modelled. Four genuine defects were repaired by fix: commits (F3, F4, F5, F19) and the "
               "model follows the repaired code.")
 TECHNIQUE = "Coq refinement proof (table -> list) + kernel-checked correspondence on real directories"
 DESIGN_REF = "DESIGN.md section 6, C10"
